@@ -33,7 +33,7 @@ def run(pid, path):
     if "case" in rp and isinstance(rp["case"], list):
         lines = rp["case"]
         first = lines[0].split()[0] if lines else ""
-        cmd = "sloop" if first in ("start", "exec") else "ploop" if first in ("popts", "allot") else "engine"
+        cmd = "sloop" if first in ("start", "exec") else "ploop" if first in ("popts", "allot") else "aloop" if first in ("astarts", "arun") else "engine"
         cf = os.path.join(C.BUILD, "replay_%s.case" % pid)
         C.write_cases(cf, [("r", lines)])
         (rc1, go_out, go_err), (rc2, ml_out, ml_err) = C.run_both(cmd, cf)
@@ -87,7 +87,7 @@ def run(pid, path):
         else:
             for x in g:
                 _print("   impl  " + x)
-            sent = [int(v) for x in g if x.startswith("sent") for v in x.split()[1:]]
+            sent = [int(v) for x in g if x.startswith(("sent", "delivered")) for v in x.split()[1:]]
             if any(not b < a for a, b in zip(sent, sent[1:])):
                 still = True
                 _print("REPLAY: scores on the channel not strictly decreasing: %s" % sent)
